@@ -65,7 +65,10 @@ PlayCodes == %(play)s
 CtlQueued == \E i \in DOMAIN K.L.queue : K.L.queue[i].p /\ K.L.queue[i].x = 0 /\ K.L.queue[i].y \in CtlCodes
 \* no input while a control key press waits in the queue (the recording boundary would not be determined by
 \* the input order); at most %(held)d keys are held at a time; after the last save only play keys are pressed%(replay_doc)s
+\* while a recording is on kanata never reports idle (fix db302df) and the monitor gives a replay its full time budget:
+\* nothing is typed between the end of such a replay and the end of its budget (only ticks)
 EnvCan == Alive /\ Len(K.L.queue) < QMax %(ctl_guard)s
+          /\ ~(K.dyn.rep = <<>> /\ K.dyn.rec # <<>> /\ mon.replaying)
 EPress(c) == /\ EnvCan /\ c \notin phys /\ Cardinality(phys) < %(held)d %(press_guard)s
              /\ (c \notin PlayCodes => K.dyn.ns < %(saves)d)
              /\ K' = HandleInput(K, "d", c) /\ phys' = phys \cup {c}
@@ -96,7 +99,7 @@ def instance(name, desc, params, D=1, qmax=1, maclen=3, free_replay=False, saves
         replay_doc="" if free_replay else "; while a replay runs only control keys are released",
         press_guard="" if free_replay else "/\\ K.dyn.rep = <<>>",
         release_guard="" if free_replay else "/\\ (K.dyn.rep = <<>> \\/ c \\in CtlCodes)")
-    bound = ("DynBound == /\\ ~K.dyn.amb /\\ K.dyn.ns <= %d /\\ (K.dyn.rec = <<>> \\/ (K.dyn.rec[1].delay <= %d /\\ "
+    bound = ("DynBound == /\\ ~K.dyn.amb /\\ mon.budget <= 100 /\\ K.dyn.ns <= %d /\\ (K.dyn.rec = <<>> \\/ (K.dyn.rec[1].delay <= %d /\\ "
              "Len(K.dyn.rec[1].items) <= %d))" % (saves, D, maclen))
     # vacuity probe: one line per transition on which the monitor has followed a replay to its end in its sharp mode
     probe = ("SyncDone == (mon.replaying /\\ ~mon'.replaying /\\ mon.mode = \"sync\" /\\ mon'.mode = \"sync\" /\\ mon'.err = \"\" "
